@@ -42,6 +42,8 @@ type VC struct {
 	errs   []string
 	trig   map[string]bool
 	noCong map[string]bool
+	nlocal int
+	localKeys []string
 	once   sync.Once
 	congAx []string
 }
@@ -184,6 +186,10 @@ func (h *Heap) havocAll(tag string) *Heap {
 	n.writes["*"] = vc.stamp
 	n.base = func(key string) *Term {
 		return vc.declare(heapSym(key, ver), vc.w.heapSort[key])
+	}
+	// private local cells are unreachable for whatever caused the havoc
+	for _, k := range vc.localKeys {
+		n.m[k] = h.get(k)
 	}
 	return n
 }
